@@ -36,6 +36,14 @@ def safe_impl(mod, case):
         return {"__harness_exc__": type(e).__name__, "msg": str(e)[:200]}
 
 
+def safe_oracle(mod, c, io):
+    """the oracle's verdict; an observed result it cannot even read (a value of a type the property rules out) is a failure of the property"""
+    try:
+        return mod.oracle(c, io)
+    except Exception as e:
+        return "the observed result has a shape the property does not allow: the oracle raised %s: %s" % (type(e).__name__, str(e)[:200])
+
+
 def run_cases(mod, cases):
     """returns list of dicts {case, impl, model, agree, oracle}"""
     impls = [safe_impl(mod, c) for c in cases]
@@ -59,10 +67,7 @@ def run_cases(mod, cases):
             agree = False
         else:
             agree = (mo == SKIP) or (mod.agree(io, mo) if hasattr(mod, 'agree') else mo == io)
-        try:
-            orc = mod.oracle(c, io)
-        except Exception as e:
-            orc = "oracle raised %s: %s" % (type(e).__name__, str(e)[:200])
+        orc = safe_oracle(mod, c, io)
         res.append({"case": c, "impl": io, "model": mo, "agree": agree, "oracle": orc})
     return res, req_lines, out_lines
 
@@ -176,9 +181,9 @@ def main(pid, tier="quick", seed=0, replay=None):
     # a concrete failing input, when the search found one, is the report; disagreements on which the oracle found
     # nothing are reported (as unproved, no failing input) only when there is no counterexample at all
     for r in failing[:MAXREP]:
-        small = shrink_case(mod, r["case"], lambda c: mod.oracle(c, safe_impl(mod, c)) is not None, budget_s=20 if reported == 0 else 3)
+        small = shrink_case(mod, r["case"], lambda c: safe_oracle(mod, c, safe_impl(mod, c)) is not None, budget_s=20 if reported == 0 else 3)
         so = safe_impl(mod, small)
-        v.violation("counterexample", {"case": small, "implementation_returned": so, "why": mod.oracle(small, so),
+        v.violation("counterexample", {"case": small, "implementation_returned": so, "why": safe_oracle(mod, small, so),
                                        "original_case": r["case"], "replay_cmd": "./check %s --replay <this file>" % pid})
         reported += 1
     if not failing:
